@@ -8,21 +8,18 @@ Open Scope nat_scope.
 (* Full statement: for EVERY object store (OperatorTemplate, NodeTemplate and CircuitTemplate objects shared at will), every
    root circuit of any hierarchy depth d whose unfolding exists, and EVERY finite history of update_var (scalar / array
    values of any length, wildcard patterns), edge-attribute updates, update_template (nodes / edges, with and without
-   in_place, the user's variable following the returned object) and compilations with apply(node_values, edge_values),
+   in_place — after fix D75 —, the user's variable following the returned object) and compilations with apply(node_values, edge_values),
    the outputs of the implementation model are the outputs of the specification (functional update of the addressed
    paths of the unshared tree, nothing else). *)
 Definition C07_full_statement : Prop := forall d r ops h t, abs d h r = Some t ->
   snd (runI d (init_state h r) ops) = snd (runS d t ops).
 
-(* It holds for every history without update_template(edges=.., in_place=True) ... *)
-Theorem C07_partial : forall d r ops h t, abs d h r = Some t -> no_inplace_edge_template ops = true ->
-  snd (runI d (init_state h r) ops) = snd (runS d t ops).
+Theorem C07_full : C07_full_statement.
 Proof. exact history_outputs. Qed.
-Print Assumptions C07_partial.
+Print Assumptions C07_full.
 
-(* ... together with the simulation of the states (the root object changes along update_template without in_place) *)
-Theorem C07_refines : forall d ops st t, abs d (heap_of st) (root_of st) = Some t -> stale_of st = None ->
-  no_inplace_edge_template ops = true ->
+(* together with the simulation of the states (the root object changes along update_template without in_place) *)
+Theorem C07_refines : forall d ops st t, abs d (heap_of st) (root_of st) = Some t ->
   abs d (heap_of (fst (runI d st ops))) (root_of (fst (runI d st ops))) = Some (fst (runS d t ops)) /\
   snd (runI d st ops) = snd (runS d t ops).
 Proof. exact history_refines. Qed.
@@ -108,16 +105,13 @@ Example C07_nonvacuous :
 Proof. split; [eexists; vm_compute; reflexivity | vm_compute; auto]. Qed.
 Print Assumptions C07_nonvacuous.
 
-(* refutation of the full statement (known finding C07-inplace-edge-map): update_template(edges=[B->A], in_place=True)
-   replaces self.edges by a copy but keeps the old _edge_map; the following update_var(edge_vars=[(A->B, weight 64)])
-   writes into a dictionary the template no longer uses: the compiled weight stays 2 (specification: 64) *)
+(* regression witness of the former finding C07-inplace-edge-map (repaired by D75): after
+   update_template(edges=[B->A], in_place=True) the edge update (A->B, weight 64) reaches its target; the new edge has weight 8 *)
 Definition ipe_ops : list hop :=
   [UpdTemplate true [] [("B/op/x"%string, "A/op/u"%string, [("weight"%string, Sc (mkq 8 1))])];
    UpdEdge "A/op/x" "B/op/u" [("weight"%string, Sc (mkq 64 1))]; Observe [] []].
-Theorem C07_inplace_edges_refuted : ~ C07_full_statement.
-Proof.
-  intros H. destruct (abs 0 nv_heap 2) as [t|] eqn:E; [|vm_compute in E; discriminate].
-  specialize (H 0 2 ipe_ops nv_heap t E). apply (f_equal (probe_w "A/op/x" "B/op/u")) in H.
-  vm_compute in E. injection E as <-. vm_compute in H. discriminate.
-Qed.
-Print Assumptions C07_inplace_edges_refuted.
+Example C07_inplace_edges_regression :
+  let outs := snd (runI 0 (init_state nv_heap 2) ipe_ops) in
+  probe_w "A/op/x" "B/op/u" outs = 64%Z /\ probe_w "B/op/x" "A/op/u" outs = 8%Z.
+Proof. vm_compute. auto. Qed.
+Print Assumptions C07_inplace_edges_regression.
